@@ -20,6 +20,11 @@ CLAIMED = {
   text="Decides that the applied-prefix comparison in Executor.Execute cannot index out of range (the guard implies the index is in range on its fall-through; same lint repo-wide), covers exactly [0,Applied) with one index on both sides and the same hash prefix constant, dominates every ExecContext, and that after a mismatch no statement is executed and no progress field is stored.",
   note="Not decided: hash equality semantics; the revision row is re-written (ExecutedAt/OperatorVersion) before the comparison, which the rule does not count as touching the history. ",
   ref="DESIGN.md §3 C12"),
+ "C14": dict(
+  technique="static analysis: CHA call-graph effect reachability + go/cfg defer-dominance path rules + caller-ownership rule",
+  text="Decides for all inputs and all failure positions: no Snapshot implementation can execute a statement before returning (a refused dev database is untouched); at each of the call sites of Snapshot the restore function is deferred before any other call or return, every database write of the snapshot-holding functions is dominated by that defer, the private database-writing methods of DevLoader/DevDriver are called only from snapshot holders, the restore error reaches a named result; and from Executor.Replay no directory-mutating call is reachable in sql/migrate except CopyFiles into a MemDir allocated locally. Cleanup on every exit is a property of all paths of a few functions, which is exactly what a path rule decides.",
+  note="Not decided: that the restore function removes every object kind on a real engine, and that the cleanliness test (value-level) recognises every non-empty database. StateReader/Driver callbacks passed into Replay are analysed in their own packages, not followed from Replay. ",
+  ref="DESIGN.md §3 C14"),
 }
 
 NA = {}
